@@ -573,6 +573,26 @@ func analyseService() []apiRow {
 		}
 	}
 	meths := methodsOf(files, "KevoServiceServer")
+	// unexported helper methods that hand back a transaction of the registry ("find the
+	// transaction by id" moved into a method of its own): a variable bound from such a call is
+	// a transaction variable like one bound from registry.Get directly
+	helperTx := map[string]bool{}
+	for name, fd := range meths {
+		if ast.IsExported(name) || fd.Body == nil {
+			continue
+		}
+		hr := recvName(fd)
+		ast.Inspect(fd.Body, func(n ast.Node) bool {
+			if c, ok := n.(*ast.CallExpr); ok {
+				if s, ok := c.Fun.(*ast.SelectorExpr); ok && s.Sel.Name == "Get" {
+					if f, ok := fieldSel(s.X, hr); ok && regF[f] {
+						helperTx[name] = true
+					}
+				}
+			}
+			return true
+		})
+	}
 	var rows []apiRow
 	for name, fd := range meths {
 		if !ast.IsExported(name) {
@@ -600,6 +620,11 @@ func analyseService() []apiRow {
 			if f, ok := fieldSel(s.X, recv); ok && ((engF[f] && s.Sel.Name == "BeginTransaction") || (regF[f] && s.Sel.Name == "Get")) {
 				if id, ok := as.Lhs[0].(*ast.Ident); ok {
 					txVars[id.Name] = true
+				}
+			}
+			if id, ok := s.X.(*ast.Ident); ok && id.Name == recv && helperTx[s.Sel.Name] {
+				if v, ok := as.Lhs[0].(*ast.Ident); ok {
+					txVars[v.Name] = true
 				}
 			}
 			return true
